@@ -377,6 +377,26 @@ func ruleSwapInPlaceSameSize(r *Report) {
 	if fn == nil || len(fn.Params) < 2 {
 		return
 	}
+	// after the value was appended to the parent buffer (which may have been re-allocated) the reader
+	// takes its window again: the same window Range gave it, parent.buffer[x0:x1]
+	allInstrs(fn, func(ins ssa.Instruction) {
+		st, ok := ins.(*ssa.Store)
+		if !ok {
+			return
+		}
+		fr, isF := fieldOf(st.Addr)
+		if !isF || fr.Struct != "commit.Reader" || fr.Field != "buffer" {
+			return
+		}
+		sl, isSl := strip(st.Val).(*ssa.Slice)
+		okW := isSl
+		if isSl {
+			lo, okLo := loadedField(sl.Low)
+			hi, okHi := loadedField(sl.High)
+			okW = sl.Low != nil && sl.High != nil && okLo && okHi && lo.Field == "x0" && hi.Field == "x1"
+		}
+		h.Check(okW, "(*commit.Reader).SwapBytes/window", r.P.InstrPos(ins), "buffer := parent.buffer[x0:x1]", "after appending the rewritten value SwapBytes does not take the section's window parent.buffer[x0:x1] again: the rest of the section is read at the wrong positions")
+	})
 	n, bad := 0, ""
 	allInstrs(fn, func(ins ssa.Instruction) {
 		c, ok := ins.(*ssa.Call)
